@@ -438,16 +438,15 @@ def eval_contracts(workdir, rows, tag='contracts'):
 
 
 def module_calls():
-    """the regenerated inventory of EVM calls made by the keepers (Gen/ModCallsGen.v, written by tools/gotocoq/modcalls):
-    list of dict(file, func, kind, frm, target, methods)"""
+    """the regenerated, normalised inventory of EVM calls made by the keepers (Gen/ModCallsGen.v, written by
+    tools/gotocoq/modcalls): list of dict(frm, target, method, sites)"""
     import re
     path = os.path.join(vlib.THEORIES, 'Gen', 'ModCallsGen.v')
     out = []
     if not os.path.exists(path):
         return out
-    for m in re.finditer(r'\(\* (\S+) (\S+) kind (\d) from "([^"]*)" target "([^"]*)" methods \[([^\]]*)\] \*\)', open(path).read()):
-        out.append(dict(file=m.group(1), func=m.group(2), kind=int(m.group(3)), frm=m.group(4), target=m.group(5),
-                        methods=m.group(6).split()))
+    for m in re.finditer(r'SITE from "([^"]*)" target "([^"]*)" method "([^"]*)" in \[([^\]]*)\]', open(path).read()):
+        out.append(dict(frm=m.group(1), target=m.group(2), method=m.group(3), sites=m.group(4).split()))
     return out
 
 
@@ -455,14 +454,14 @@ def module_call_pairs(calls):
     """(contract.method, caller kind name) pairs the Go modules exercise on the packet / endpoint contracts"""
     pairs = {}
     for c in calls:
-        if c['kind'] == 0 or 'xibc_packet.PacketContractAddress' in c['target']:
-            cn, who = 'packet', 'xibc-module'
-        elif 'xibc_endpoint.EndpointContractAddress' in c['target']:
-            cn, who = 'endpoint', 'aggregate-module'
+        if c['target'] == 'syscontracts/xibc_packet.PacketContractAddress':
+            cn = 'packet'
+        elif c['target'] == 'syscontracts/xibc_endpoint.EndpointContractAddress':
+            cn = 'endpoint'
         else:
             continue
-        for m in c['methods']:
-            pairs.setdefault((cn + '.' + m, who), []).append('%s:%s' % (c['file'], c['func']))
+        who = {'x/xibc/core/packet/types.ModuleAddress': 'xibc-module', 'x/aggregate/types.ModuleAddress': 'aggregate-module'}.get(c['frm'], c['frm'])
+        pairs.setdefault((cn + '.' + c['method'], who), []).extend(c['sites'])
     return pairs
 
 
